@@ -22,6 +22,7 @@ rc=0
 for p in "$@"; do
   out=$(${GMCHECK:-/verif/bin/gmcheck} -property "$p" -repo "$scratch/repo" -verif "$scratch/verif" -nofixtures 2>&1)
   if echo "$out" | grep -q "^gmcheck: load:"; then echo "MUTANT-DOES-NOT-COMPILE $p $(basename "$patch"): $(echo "$out" | grep "^gmcheck: load:" | head -1 | cut -c1-200)"; rc=4; continue; fi
+  if ! echo "$out" | grep -q "^gmcheck $p tier="; then echo "CRASHED $p $(basename "$patch"): $(echo "$out" | grep -m1 -E '^(fatal error|panic|gmcheck:)' | cut -c1-200)"; rc=5; continue; fi
   if echo "$out" | grep -q "^VIOLATION property=$p"; then
     echo "KILLED $p $(basename "$patch"): $(echo "$out" | grep -B4 '^VIOLATION' | grep -E '^\S+:[0-9]+:[0-9]+ ' | head -3 | tr '\n' ';')"
   else
